@@ -629,7 +629,7 @@ class SGen:
             return Call("MatMul", [x, Call("Transpose", [x], {"perm": [1, 0]})], {}), 1
         if kind == "split" and v.ndim >= 1 and v.shape[0] >= 2 and self.opset >= 18:
             return Call("Split", [x], {"num_outputs": 2, "axis": 0}, n_out=2), 2
-        if kind == "topk" and v.ndim >= 1 and v.shape[-1] >= 1 and v.dtype in (np.float32, np.int64) and v.size == np.unique(v).size:
+        if kind == "topk" and v.ndim >= 1 and v.size >= 1 and v.dtype in (np.float32, np.int64) and v.size == np.unique(v).size:  # (ORT SIGFPE on zero-size TopK)
             self.feats.add("literal:promoted")
             return Call("TopK", [x, Lit([1])], {}, n_out=2), 2
         if kind == "unsq":
